@@ -97,6 +97,27 @@ theorem exp_correct (a e : Nat) (ha : Inv a) :
     Inv (Model.F62.exp a e) ∧ val (Model.F62.exp a e) = val a ^ e :=
   exp_spec a e ha
 
+/-- inversion (`Model.F62.inv`, binary extended GCD): for EVERY raw word of the invariant all
+    four loops end within the model's fuel, the result satisfies the invariant, zero (raw `0` and
+    raw `M`) maps to zero and every other residue to its inverse (`0⁻¹ = 0` in `ZMod p`) -/
+theorem inv_correct (a : Nat) (ha : Inv a) :
+    ∃ r, Model.F62.inv a = .done r ∧ Inv r ∧ val r = (val a)⁻¹ :=
+  inv_spec a ha
+
+/-- both representations of zero are inverted to raw `0` -/
+theorem inv_zero : Model.F62.inv 0 = .done 0 ∧ Model.F62.inv M = .done 0 :=
+  ⟨inv_zero_case 0 (Or.inl rfl), inv_zero_case M (Or.inr rfl)⟩
+
+theorem div_correct (a b : Nat) (ha : Inv a) (hb : Inv b) :
+    ∃ r, Model.F62.impl.div a b = .done r ∧ Inv r ∧ val r = val a / val b := by
+  obtain ⟨i, h1, h2, h3⟩ := inv_spec b hb
+  refine ⟨mul a i, ?_, mul_inv _ _ ha h2, ?_⟩
+  · show (match Model.F62.inv b with
+      | Fuel.done i => Fuel.done (mul a i)
+      | Fuel.out => Fuel.out) = _
+    rw [h1]
+  · rw [val_mul _ _ ha h2, h3, div_eq_mul_inv]
+
 /-- `as_int` is the canonical representative of the residue: `< p` and equal to `(val a).val`,
     whichever of the two representatives `a` is -/
 theorem as_int_correct (a : Nat) (ha : Inv a) :
@@ -193,6 +214,71 @@ theorem get_root_of_unity_correct (n : Nat) :
         congr 1; omega
       · rw [root_of_unity_order]
         exact pow_dvd_pow 2 (by show 39 - n ≤ 39; omega)
+
+/-! ### the representation invariant over every sequence of public operations -/
+
+/-- the meaning of an operation sequence on residues (`mul_small` does not exist in this field:
+    the slot is the identity, as in the driver) -/
+def specStep (st : ZMod P × ZMod P) : FieldImpl.SeqOp → ZMod P × ZMod P
+  | .add => (st.1 + st.2, st.2)
+  | .sub => (st.1 - st.2, st.2)
+  | .mul => (st.1 * st.2, st.2)
+  | .neg => (-st.1, st.2)
+  | .dbl => (2 * st.1, st.2)
+  | .sq => (st.1 ^ 2, st.2)
+  | .swap => (st.2, st.1)
+  | .inv => (st.1⁻¹, st.2)
+  | .div => (st.1 / st.2, st.2)
+  | .mulSmall _ => st
+
+theorem seq_step (acc y : Nat) (op : FieldImpl.SeqOp) (ha : Inv acc) (hy : Inv y) :
+    ∃ acc' y', Model.F62.impl.seqStep (fun a _ => a) (some (acc, y)) op = some (acc', y') ∧
+      Inv acc' ∧ Inv y' ∧ (val acc', val y') = specStep (val acc, val y) op := by
+  cases op with
+  | add => exact ⟨add acc y, y, rfl, add_inv _ _ ha hy, hy, by rw [val_add _ _ ha hy]; rfl⟩
+  | sub => exact ⟨sub acc y, y, rfl, sub_inv _ _ ha hy, hy, by rw [val_sub _ _ ha hy]; rfl⟩
+  | mul => exact ⟨mul acc y, y, rfl, mul_inv _ _ ha hy, hy, by rw [val_mul _ _ ha hy]; rfl⟩
+  | neg => exact ⟨neg acc, y, rfl, neg_inv _ ha, hy, by rw [val_neg _ ha]; rfl⟩
+  | dbl => exact ⟨double acc, y, rfl, double_inv _ ha, hy, by rw [val_double _ ha]; rfl⟩
+  | sq => exact ⟨mul acc acc, y, rfl, mul_inv _ _ ha ha, hy, by rw [val_mul _ _ ha ha, ← pow_two]; rfl⟩
+  | swap => exact ⟨y, acc, rfl, hy, ha, rfl⟩
+  | mulSmall k => exact ⟨acc, y, rfl, ha, hy, rfl⟩
+  | inv =>
+    obtain ⟨r, h1, h2, h3⟩ := inv_spec acc ha
+    refine ⟨r, y, ?_, h2, hy, by rw [h3]; rfl⟩
+    show (match Model.F62.inv acc with
+      | Fuel.done r => some (r, y)
+      | Fuel.out => none) = _
+    rw [h1]
+  | div =>
+    obtain ⟨r, h1, h2, h3⟩ := div_correct acc y ha hy
+    refine ⟨r, y, ?_, h2, hy, by rw [h3]; rfl⟩
+    show (match Model.F62.impl.div acc y with
+      | Fuel.done r => some (r, y)
+      | Fuel.out => none) = _
+    rw [h1]
+
+/-- every state reachable from integers by public operations satisfies the representation
+    invariant (the implementation always returns: no inversion runs out of fuel) and denotes the
+    residues obtained by the same operations in `ZMod p`; in particular `==`, `as_int` and
+    serialization agree with residue equality in every reachable state -/
+theorem seq_invariant (a b : Nat) (ha : a < 2 ^ 64) (hb : b < 2 ^ 64) (ops : List FieldImpl.SeqOp) :
+    ∃ acc y, Model.F62.impl.runSeq (fun a _ => a) a b ops = some (acc, y) ∧ Inv acc ∧ Inv y ∧
+      (val acc, val y) = ops.foldl specStep ((a : ZMod P), (b : ZMod P)) := by
+  unfold FieldImpl.runSeq
+  have h0 : ∃ acc y, (some (Model.F62.impl.new a, Model.F62.impl.new b) : Option (Nat × Nat)) = some (acc, y) ∧
+      Inv acc ∧ Inv y ∧ (val acc, val y) = ((a : ZMod P), (b : ZMod P)) :=
+    ⟨new a, new b, rfl, new_inv a ha, new_inv b hb, by rw [val_new a ha, val_new b hb]⟩
+  generalize (some (Model.F62.impl.new a, Model.F62.impl.new b) : Option (Nat × Nat)) = st at h0
+  generalize (((a : ZMod P), (b : ZMod P)) : ZMod P × ZMod P) = sp at h0 ⊢
+  induction ops generalizing st sp with
+  | nil => simpa using h0
+  | cons op ops ih =>
+    obtain ⟨acc, y, rfl, hi1, hi2, hv⟩ := h0
+    obtain ⟨acc', y', hs, hj1, hj2, hv'⟩ := seq_step acc y op hi1 hi2
+    rw [List.foldl_cons, List.foldl_cons, hs]
+    apply ih
+    exact ⟨acc', y', rfl, hj1, hj2, by rw [hv', hv]⟩
 
 /-- non-vacuity: concrete raw words satisfy the invariant -/
 example : Inv (new 5) ∧ Inv (new (2 ^ 64 - 1)) := ⟨new_inv 5 (by norm_num), new_inv _ (by norm_num)⟩
